@@ -72,6 +72,30 @@ def run(ctx, res):
         if cfg["kind"] in ("kk", "km", "kw"):
             continue
         nd.append({"cfg": cfg, "xs": xs, "impl": nnm.run_impl(cfg, xs, variant=i), "tag": "non-dyadic (oracle only)"})
+    # the same buffer object refilled in place with a very different sample of the same length (a caller streaming
+    # batches through one array): the second answer must be that of a fresh array
+    refill = []
+    for i in range(ctx.n(80, 800)):
+        kind = ["alpha_shrink", "bet_agrapa", "alpha_fixed", "sprt"][i % 4]
+        cfg = nnm.gen_cfg(ctx.rng, kind=kind, finite=True)
+        n = ctx.rng.randint(3, 12)
+        cfg["N"] = n + ctx.rng.randint(0, 4)
+        hi = [cfg["u"] if ctx.rng.random() < 0.8 else cfg["u"] / 2 for _ in range(n)]
+        lo = [F(0) if ctx.rng.random() < 0.8 else cfg["u"] / 8 for _ in range(n)]
+        first, second = (hi, lo) if i % 2 == 0 else (lo, hi)
+        if i % 3 == 1:       # a run of zeros first, then (through the same buffer) high values followed by a zero
+            k = ctx.rng.randint(1, n - 1)
+            first = [F(0)] * n
+            second = [cfg["u"]] * k + [F(0) if ctx.rng.random() < 0.7 else cfg["u"] for _ in range(n - k)]
+        if i % 3 == 0:       # two unrelated samples of the same length
+            first, second = nnm.gen_xs(ctx.rng, cfg, n=n, maxlen=n), nnm.gen_xs(ctx.rng, cfg, n=n, maxlen=n)
+            if len(first) != len(second):
+                continue
+        nnm.run_impl(cfg, first, variant=0)                       # variant 0: the shared float buffer of that length
+        refill.append({"cfg": cfg, "xs": second, "impl": nnm.run_impl(cfg, second, variant=0), "tag": "same buffer refilled in place"})
+    cr3 = C.run_corr(ctx.pid, "nnm_refill", nnm.IMPORTS, "nnm_case", refill, nnm.case_lit, "agree_nnm", shard=150, show="show_nnm")
+    res.corr.append(("NonnegMean.estim/bet/test vs NNM model (second sample through the same buffer object)", cr3, nnm.case_json))
+    extra = extra + refill
     lg = [c for c in nnm.long_cases(ctx.rng, ctx.n(120, 1200), kinds=["alpha_fixed", "alpha_shrink", "bet_fixed", "bet_agrapa", "sprt", "alpha_optcomp"])]
     for c in cases + extra + nd + lg:
         res.evaluations += 1
